@@ -63,6 +63,11 @@ func kInit(dir, tier string) error {
 	}
 	kDir = dir
 	loadSysInfo()
+	// descriptors the caller holds without close-on-exec are inherited by any program (plain Unix
+	// semantics, outside C06's quantifier): the harness keeps none, like a Go server would not
+	for fd := 0; fd < 3; fd++ {
+		syscall.CloseOnExec(fd)
+	}
 	return nil
 }
 
